@@ -1614,6 +1614,16 @@ class TypeSystem:  # noqa: PLR0904
             sub_class: subclass
         """
         self._graph.add_edge(super_class, sub_class)
+        # The answers of these cached queries depend on the graph.
+        for cached_query in (
+            TypeSystem.get_subclasses,
+            TypeSystem.get_superclasses,
+            TypeSystem.is_subclass,
+            TypeSystem.is_subtype,
+            TypeSystem.is_maybe_subtype,
+            TypeSystem.subtype_distance,
+        ):
+            cached_query.cache_clear()
 
     @functools.lru_cache(maxsize=1024)
     def get_subclasses(self, klass: TypeInfo) -> OrderedSet[TypeInfo]:
